@@ -490,7 +490,11 @@ where
             }
             Pattern::Tuple { ref elems, .. } => {
                 let (_, field) = self.select_spanned(&**elems, |elem| elem.span);
-                self.visit_pattern(field.unwrap());
+                match field {
+                    Some(field) => self.visit_pattern(field),
+                    // The unit pattern `()` has no elements
+                    None => self.found = MatchState::Found(Match::Pattern(current)),
+                }
             }
             Pattern::Ident(_) | Pattern::Literal(_) | Pattern::Error => {
                 self.found = if current.span.containment(self.pos) == Ordering::Equal {
@@ -648,7 +652,13 @@ where
                     self.found = MatchState::Found(Match::Ident(current.span, id, typ.clone()));
                 }
             }
-            Expr::Array(ref array) => self.visit_one(&*array.exprs),
+            Expr::Array(ref array) => {
+                if array.exprs.is_empty() {
+                    self.found = MatchState::Found(Match::Expr(current));
+                } else {
+                    self.visit_one(&*array.exprs)
+                }
+            }
             Expr::Record {
                 ref base,
                 typ: ref record_type,
@@ -714,7 +724,7 @@ where
             Expr::MacroExpansion {
                 ref replacement, ..
             } => self.visit_expr(replacement),
-            Expr::Annotated(..) => unimplemented!(), // FIXME
+            Expr::Annotated(ref expr, _) => self.visit_expr(expr),
             Expr::Error(..) => (),
         }
     }
